@@ -104,6 +104,9 @@ func histories(r *Run) {
 	if w.Par1 && worldID < 0 && t.Bool(1, 6, "foreign-writer") {
 		w.RewriteAsForeignPar1(r)
 	}
+	if !w.Par1 && worldID < 0 && t.Bool(1, 8, "foreign-writer-par2") {
+		w.RewriteAsForeignPar2(r)
+	}
 
 	maxSteps := 12
 	if r.Thorough() {
